@@ -114,6 +114,14 @@ static void make_valid(unsigned c[16], int p, unsigned idx) {
 }
 static int POS[4] = { 15, 1, 8, 0 }, NPOS = 1;
 
+static int more_checks(struct res *r, const char *ph, int li, const char *rep) {
+    const polyseed_lang *lo_ = NULL; polyseed_data *da = NULL; int as = polyseed_decode(ph, 0, &lo_, &da); r->calls++; r->cases++;
+    uint8_t ga[32], ea[32]; memset(ga, 0, 32); memset(ea, 0, 32); if (as == POLYSEED_OK) { polyseed_store(da, ga); polyseed_free(da); }
+    rseed ra; int ml = -1; int ma = ref_decode(ph, 0, -1, 7, 0, CAP, &ra, &ml); if (ma == 0) ref_storage(&ra, ea);
+    if (as != ma || memcmp(ga, ea, 32) || (as == POLYSEED_OK && lang_index(lo_) != ml)) { char key[160]; snprintf(key, sizeof key, "c08:auto-model:%s:%d->%d", RL[li].code, ma, as);
+        res_viol(r, key, rep, "automatic detection: reference decoder says %d (language %d), library %d (language %d)%s", ma, ml, as, as == 0 ? lang_index(lo_) : -1, as == 0 && ma == 0 && memcmp(ga, ea, 32) ? ", another seed" : ""); return 1; }
+    r->validated++; return 0;
+}
 static void work(long lo, long hi, struct res *r, void *arg) {
     (void)arg;
     static struct var V[MAXVAR];
@@ -142,6 +150,22 @@ static void work(long lo, long hi, struct res *r, void *arg) {
             rseed rs; int ms = ref_decode(ph, 0, li, 7, 0, CAP, &rs, NULL);
             if (ms != st) { snprintf(key, sizeof key, "c08:model:%s:%d->%d", RL[li].code, ms, st); res_viol(r, key, rep, "token \"%s\" for \"%s\": reference decoder says %d, library %d", V[v].tok, RL[li].w[idx], ms, st); continue; }
             r->validated++; r->cls[same ? 0 : st == POLYSEED_ERR_LANG ? 1 : 2]++;
+            /* the same phrase through automatic detection: the reference detector decides status, language and seed */
+            if (more_checks(r, ph, li, rep)) continue;
+            /* the word itself, typed in full, earlier in the same phrase (checksum recomputed as if the variant were the word): a token is
+             * judged on its own bytes, whatever else the phrase contains */
+            if (!V[v].permitted) {
+                unsigned c2[16]; memcpy(c2, c, sizeof c2); int q = p >= 8 ? p - 8 : p + 7; if (q == 0) q = 3;
+                c2[q] = idx; if (q == 2 && (idx & 1)) c2[q] = idx ^ 1; if (p > 0) { c2[0] = 0; c2[0] = ref_eval(c2); }
+                char ph2[2600] = ""; for (int i = 0; i < 16; i++) { if (i) strcat(ph2, " "); strcat(ph2, i == p ? V[v].tok : RL[li].w[c2[i]]); }
+                char rep2[2700]; snprintf(rep2, sizeof rep2, "case %d 0 %s", li, ph2);
+                polyseed_data *d2 = NULL; int s2 = polyseed_decode_explicit(ph2, 0, polyseed_get_lang(li), &d2); r->calls++; r->cases++;
+                if (s2 == POLYSEED_OK) polyseed_free(d2);
+                rseed r2; int m2 = ref_decode(ph2, 0, li, 7, 0, CAP, &r2, NULL);
+                if (s2 != m2) { snprintf(key, sizeof key, "c08:twin:%s:%d->%d", RL[li].code, m2, s2); res_viol(r, key, rep2, "token \"%s\" after the full word \"%s\" earlier in the phrase: reference decoder says %d, library %d", V[v].tok, RL[li].w[idx], m2, s2); continue; }
+                r->validated++;
+                if (more_checks(r, ph2, li, rep2)) continue;
+            }
         }
     }
     if (r->nsample < 1 && lo < hi) { int li = (int)((lo / R_NW) % R_NLANG); unsigned idx = (unsigned)(lo % R_NW); int nv = gen_variants(li, idx, V); char s[300] = ""; for (int v = 0; v < nv && strlen(s) < 200; v++) { strcat(s, V[v].permitted ? "+" : "-"); strcat(s, V[v].tok); strcat(s, " "); } res_sample(r, "variants of %s word \"%s\": %s", RL[li].code, RL[li].w[idx], s); }
@@ -195,6 +219,7 @@ int main(int argc, char **argv) {
         uint8_t got[32] = {0}, exp[32] = {0}; if (st == 0) polyseed_store(d, got); if (rs == 0) ref_storage(&want, exp);
         printf("decode_explicit(\"%s\") -> %d ; reference -> %d ; same seed: %s\n", ph, st, rs, memcmp(got, exp, 32) ? "no" : "yes");
         if (st != rs || memcmp(got, exp, 32)) { printf("REPRODUCED\n"); return 1; }
+        { struct res *rr = calloc(1, sizeof *rr); if (more_checks(rr, ph, li, "")) { printf("REPRODUCED %s\n", rr->v[0].msg); return 1; } }
         return 0;
     }
     NPOS = G_thorough ? 4 : 1;
